@@ -1,8 +1,9 @@
 (** C11 -- all actions present the same data.  Property file: the full statement, the proved statement
     (closed by [exact] of the generic theorems of C11/Actions.v and C11/Names.v), the instantiation
     obligations on the facts regenerated from /repo on every run (Gen.C01Facts, Gen.C11Facts), non-vacuity
-    examples, and Print Assumptions.  The refutations C11_refuted_* (one per listed finding) are in
-    coq/props/C11_refuted.v and are compiled chunk by chunk by the check. *)
+    examples, and Print Assumptions.  The four defects the full statement was once refuted by (head(0), show
+    without rows, show with repeated names, colliding renamed name) are repaired in /repo; their witnesses are
+    now positive examples below ([C11_formerly_refuted_*]) and corpus cases of the check. *)
 From SF Require Import C11.Actions.
 From Gen Require Import C01Facts C11Facts.
 Open Scope Z_scope.
@@ -18,7 +19,7 @@ Lemma gen_head_ok : head_ok gen_afacts.
 Proof.
   unfold head_ok, gen_afacts, head_arg, head_scalar, head_index; cbn [a_head_arg a_head_scalar a_head_index].
   split; [reflexivity|]. split; [|split; [reflexivity | split; [intro k; reflexivity | reflexivity]]].
-  intros k Hk. destruct (Z.eqb_spec k 0); first [lia | reflexivity].
+  intros k Hk. reflexivity.
 Qed.
 Lemma gen_first_ok : first_ok gen_afacts.
 Proof. reflexivity. Qed.
@@ -31,9 +32,17 @@ Proof. vm_compute. reflexivity. Qed.
 (** show: [limit(n)] *)
 Lemma gen_show_ok : show_ok gen_afacts.
 Proof. intro z. reflexivity. Qed.
-(** Row._unique_field_names: append [_<index>] iff the name was already emitted *)
-Lemma gen_ren_spec : ren_spec (a_rename gen_afacts).
-Proof. intros acc i f. cbn [a_rename gen_afacts]. unfold gen_rename, suffixed. destruct (mem f acc); reflexivity. Qed.
+(** show: the header does not need a first row, and the limit is written into the DataFrame's own block *)
+Lemma gen_show_header : a_show_header_needs_row gen_afacts = false.
+Proof. reflexivity. Qed.
+Lemma gen_show_no_wrap : a_show_wraps gen_afacts = false.
+Proof. reflexivity. Qed.
+(** Row._unique_field_names: advance the suffix [_<n>], n = index, index+1, ..., until the name is unused *)
+Lemma gen_ren_fresh : ren_fresh_spec (a_rename gen_afacts).
+Proof. intros acc i f. reflexivity. Qed.
+(** limit is never preceded by a wrap (LIMIT is the last clause) and no method is tagged INIT *)
+Lemma gen_limit_in_place : limit_in_place_ok gen_cfg = true.
+Proof. vm_compute. reflexivity. Qed.
 (** collect / toPandas / toArrow hand the same (optimize, quote_identifiers, normalisation) to the connection *)
 Lemma gen_paths_ok : paths_ok path_of = true.
 Proof. vm_compute. reflexivity. Qed.
@@ -72,31 +81,44 @@ Definition C11_full : Prop :=
 (** the header show() prints never repeats a name -- at full strength, for every field list *)
 Definition C11_names_full : Prop := forall fs, NoDup (unique_field_names fs).
 
-(** what is proved: the same on C01's decidable domain [ops_ok] (hence duplicate-free column names), with
-    head(n) for n <> 0 and show(n) whenever it prints at least one row; whatever header show() prints is
-    duplicate-free *)
+(** proved 1: the whole statement on C01's decidable domain [ops_ok] (the programs whose collect() C01 proves
+    right; select lists there have distinct names) -- every input, every n including 0, header also without rows *)
 Theorem C11_partial :
   forall ops input n, wf_frame input -> NoDup (cols input) ->
     ops_ok gen_cfg (init_df (cols input)) (cols input) ops = true ->
-    agree_partial gen_cfg gen_afacts (compile gen_cfg ops (init_df (cols input))) input n.
+    agree_full (compile gen_cfg ops (init_df (cols input))) input n.
 Proof.
   exact (fun ops input n =>
-    all_actions gen_cfg gen_afacts gen_cfg_ok gen_limit_ok gen_ren_spec ops input n
-                gen_head_ok gen_first_ok gen_count_ok gen_isempty_ok gen_show_ok).
+    all_actions gen_cfg gen_afacts gen_cfg_ok gen_limit_ok (ufn_id_f gen_rename gen_ren_fresh) ops input n
+                gen_head_ok gen_first_ok gen_count_ok gen_isempty_ok gen_show_ok gen_show_header).
 Qed.
 Print Assumptions C11_partial.
 
-(** count needs no domain at all: it holds for every state, also with repeated column names *)
+(** proved 2: EVERY program (no domain predicate: select lists may repeat names, any ORDER BY keys), every input,
+    every n -- everything except isEmpty; show prints the first n rows of collect() under a duplicate-free header
+    whose cells are the column names or their index-suffixed forms *)
+Theorem C11_all_programs :
+  forall ops input n, wf_frame input -> NoDup (cols input) ->
+    agree_any gen_cfg gen_afacts (compile gen_cfg ops (init_df (cols input))) input n.
+Proof.
+  exact (fun ops input n =>
+    all_actions_any gen_cfg gen_afacts gen_limit_ok ops input n
+                    gen_head_ok gen_first_ok gen_count_ok gen_show_ok gen_show_no_wrap gen_show_header gen_ren_fresh
+                    gen_limit_in_place).
+Qed.
+Print Assumptions C11_all_programs.
+
+(** count needs no domain at all: it holds for every state *)
 Theorem C11_count_holds : forall d input, count d input = Some (Z.of_nat (List.length (collect d input))).
 Proof. exact (fun d input => count_correct gen_afacts d input gen_count_ok). Qed.
 Print Assumptions C11_count_holds.
 
-Theorem C11_names_partial : forall fs, clash_free fs = true -> NoDup (unique_field_names fs).
-Proof. exact (ufn_nodup gen_rename gen_ren_spec). Qed.
-Print Assumptions C11_names_partial.
+Theorem C11_names_holds : C11_names_full.
+Proof. exact (ufn_nodup_total gen_rename gen_ren_fresh). Qed.
+Print Assumptions C11_names_holds.
 
 Theorem C11_names_identity : forall fs, NoDup fs -> unique_field_names fs = fs.
-Proof. exact (ufn_id gen_rename gen_ren_spec). Qed.
+Proof. exact (ufn_id_f gen_rename gen_ren_fresh). Qed.
 
 (** toPandas / toArrow convert the result of the statement collect() runs -- for every renderer, every
     engine, and whatever the session executed before *)
@@ -132,9 +154,27 @@ Example C11_domain_nonempty :
     = STable ["c"; "b"]%string [[VNull; VInt 7]; [VInt 2; VInt 5]] /\
   count (compile gen_cfg ex_ops (init_df (cols ex_input))) ex_input = Some 3.
 Proof. vm_compute. repeat split; reflexivity. Qed.
-Example C11_clash_free_nonempty : clash_free ["a"; "a"; "b"; "a"]%string = true /\
-  unique_field_names ["a"; "a"; "b"; "a"]%string = ["a"; "a_1"; "b"; "a_3"]%string.
+Example C11_names_example :
+  unique_field_names ["a"; "a"; "b"; "a"]%string = ["a"; "a_1"; "b"; "a_3"]%string /\
+  unique_field_names ["a_2"; "a"; "a"]%string = ["a_2"; "a"; "a_3"]%string.
 Proof. vm_compute. split; reflexivity. Qed.
+
+(** the witnesses that refuted the full statement before the repairs, now satisfied *)
+Definition one_row : frame := mkFrame ["a"; "b"; "s"]%string [[VInt 1; VInt 2; VStr "x"]].
+Example C11_formerly_refuted_head0 : head (Some 0%nat) (init_df (cols one_row)) one_row = HList [].
+Proof. vm_compute. reflexivity. Qed.
+Example C11_formerly_refuted_show_empty :
+  show 0%nat (init_df (cols one_row)) one_row = STable ["a"; "b"; "s"]%string [].
+Proof. vm_compute. reflexivity. Qed.
+Example C11_formerly_refuted_show_duplicate_names :
+  let d := compile gen_cfg [OSelect [(ECol "a", "x"%string); (ECol "b", "x"%string)]] (init_df (cols one_row)) in
+  collect d one_row = [[VInt 1; VInt 2]] /\ show 1%nat d one_row = STable ["x"; "x_1"]%string [[VInt 1; VInt 2]].
+Proof. vm_compute. split; reflexivity. Qed.
+Example C11_formerly_refuted_names :
+  show 1%nat (compile gen_cfg [OSelect [(ECol "a", "a_2"%string); (ECol "b", "a"%string); (ECol "s", "a"%string)]]
+                      (init_df (cols one_row))) one_row
+  = STable ["a_2"; "a"; "a_3"]%string [[VInt 1; VInt 2; VStr "x"]].
+Proof. vm_compute. reflexivity. Qed.
 
 (** the premises of the two environment-parametric theorems are satisfiable: a concrete renderer/engine pair, and the
     state transformer that really only changes the receiver when something is written *)
@@ -150,5 +190,5 @@ Example C11_independence_nonvacuous :
       (compile gen_cfg ex_ops (init_df (cols ex_input))) = [Some 3; Some 3].
 Proof. split; [reflexivity | vm_compute; reflexivity]. Qed.
 
-(** The refutations of the full statement (one per listed finding) are in coq/props/C11_refuted.v; the check compiles
-    each of them separately, so that repairing one defect in /repo does not hide the others. *)
+(** What stays unproved of [C11_full]: isEmpty on programs outside [ops_ok] (and, like every C01-based statement,
+    that collect() itself means what PySpark means there -- C01's subject). *)
